@@ -113,6 +113,33 @@ def generate(rng, tier):
         lines.append("dom-end")
         exp.append({"ok": True, "ledger": "ok"})
         cases.append({"lines": lines, "exp": exp, "cls": "member-lookup/" + ("map" if rep % 2 else "linear"), "nontrivial": True})
+    # objects with MANY members and a lookup map: the map is ordered by the three-way comparison, so one inconsistent (non-transitive)
+    # answer between three keys files a key where a lookup does not look. Field-name-like keys, short (< 8 bytes) and long mixed, from a
+    # small alphabet (shared prefixes, order decided late) plus keys whose first bytes descend while later bytes ascend
+    for rep in range(40 if quick else 2000):
+        keys = []
+        alpha = rng.choice([b"abcdeiu_", b"ab", bytes(range(0x30, 0x7B)), bytes([0x01, 0x61, 0x7F, 0x80, 0xFF])])
+        for _ in range(rng.choice([8, 9, 12, 16, 24, 40])):
+            n = rng.choice([1, 2, 3, 5, 7, 8, 9, 10, 12, 16, 17, 24, 33])
+            k = bytes(rng.choice(alpha) for _ in range(n))
+            if k not in keys:
+                keys.append(k)
+        lines = [f"dom-reset {rng.choice(['pool', 'simple'])}", "dom-set 0 / obj"]
+        exp = [{"_skip": True}, {"_skip": True}]
+        for i, k in enumerate(keys):
+            lines.append(f"dom-add 0 / {k.hex() or '-'} u{i} 1")
+            exp.append({"_skip": True})
+        lines.append("dom-createmap 0 /")
+        exp.append({"_skip": True})
+        probes = list(keys) + [k[:-1] for k in keys[:6]] + [k + b"a" for k in keys[:6]]
+        for pk in probes:
+            idx = keys.index(pk) if pk in keys else None
+            lines.append(f"dom-find 0 / {pk.hex() or '-'}")
+            exp.append({"sv": str(idx) if idx is not None else "none", "pl": str(idx) if idx is not None else "none",
+                        "has": "1" if idx is not None else "0", "at": f"u{idx}" if idx is not None else "n"})
+        lines.append("dom-end")
+        exp.append({"ok": True, "ledger": "ok"})
+        cases.append({"lines": lines, "exp": exp, "cls": "member-lookup/map-many", "nontrivial": True})
     return cases
 
 
